@@ -2863,9 +2863,10 @@ impl<'a> Visitor<'a, '_, Error> for JSONValidator<'a> {
           }
         } else if let Some(kind) = ident_numeric_kind(self.state.cddl, ident) {
           let matches_kind = match kind {
-            NumericKind::Int => n.is_i64(),
+            // an integer above i64::MAX is held as u64: is_i64() alone misses it
+            NumericKind::Int => n.is_i64() || n.is_u64(),
             NumericKind::Float => n.is_f64(),
-            NumericKind::Both => n.is_i64() || n.is_f64(),
+            NumericKind::Both => n.is_i64() || n.is_u64() || n.is_f64(),
           };
           if matches_kind {
             return Ok(());
